@@ -1,5 +1,5 @@
 """C11 native cross-check: region-restricted find_islands = unrestricted islands filtered by own-pixel membership."""
-from c02 import crosscheck as _cc, case_failures
+from c02 import crosscheck as _cc, case_failures, history_failures
 
 
 def crosscheck(p):
@@ -10,8 +10,12 @@ def crosscheck(p):
 
 
 def replay_region(p):
-    cases = p.get("cases") or [[s, True] for s in range(400)]
+    cases = p.get("cases") or ([] if p.get("histories") else [[s, True] for s in range(400)])
     bad = []
+    for s in p.get("histories") or []:
+        fl = history_failures(s)
+        if fl:
+            bad.append({"seed": s, "what": fl})
     for s, r in cases:
         fl = case_failures(s, True)
         if fl:
